@@ -80,7 +80,10 @@ SEGS = ["..", ".", "%2e%2e", "%2E%2E", "%2e.", "..%2f", "..%2f..%2f", "%2e%2e%2f
 EVIL_LAST = ["..%2F..%2F..%2F..%2Fesc.ics", "..%252F..%252F..%252F..%252Fesc.ics", "..%252f..%252f..%252f..%252fdecoy%252fesc.ics",
              "%252e%252e%252f%252e%252e%252f%252e%252e%252f%252e%252e%252fesc.ics", "..%255c..%255cesc.ics",
              "%2e%2e%2f%2e%2e%2f%2e%2e%2f%2e%2e%2fdatax%2fesc.vcf", "..%25252F..%25252F..%25252F..%25252Fesc.ics",
-             "x%252F..%252F..%252F..%252F..%252F..%252Fesc.ics"]
+             "x%252F..%252F..%252F..%252F..%252F..%252Fesc.ics",
+             # characters whose Unicode compatibility (NFKC/NFKD) form is a dot, two dots or a slash: harmless
+             # text for every path function, separators for anything that normalises afterwards
+             "%EF%BC%8E%EF%BC%8E%EF%BC%8F%EF%BC%8E%EF%BC%8E%EF%BC%8F%EF%BC%8E%EF%BC%8E%EF%BC%8F%EF%BC%8E%EF%BC%8E%EF%BC%8Fdecoy%EF%BC%8Fesc.ics", "%E2%80%A5%EF%BC%8F%E2%80%A5%EF%BC%8F%E2%80%A5%EF%BC%8F%E2%80%A5%EF%BC%8Fdatax%EF%BC%8Fesc.vcf", "%EF%BC%8E%EF%BC%8E%EF%BC%8F%E2%80%A5%EF%BC%8F%EF%BC%8E%EF%BC%8E%EF%BC%8F%E2%80%A5%EF%BC%8Fesc.ics"]
 
 
 def gen_target(rng, prefix):
@@ -159,6 +162,12 @@ def server_audit(chk, n_requests):
             subprocess.run(["git", "init", "-q", scratch], env=genv, capture_output=True)
             subprocess.run(["git", "-C", scratch, "add", "decoy", "datax"], env=genv, capture_output=True)
             subprocess.run(["git", "-C", scratch, "commit", "-q", "-m", "outer"], env=genv, capture_output=True)
+            # another instance with a root of its own lives in the same process (one WSGI mount per user) and
+            # has served a request already: nothing the instance under test does may reach its directory
+            other = make_server("wsgi", os.path.join(scratch, "neighbour", "data"), prefix=prefix)
+            other.request("PUT", prefix.rstrip("/") + "/user/calendars/calendar/n.ics", {"Content-Type": "text/calendar"},
+                          vevent("neighbour"))
+            other.request("PROPFIND", prefix.rstrip("/") + "/user/contacts/addressbook/", {"Depth": "1"}, b"")
             srv = make_server(fe, root, prefix=prefix)
             try:
                 # some legitimate content first
@@ -224,6 +233,7 @@ def server_audit(chk, n_requests):
                                   {"level": "http", "frontend": fe, "prefix": prefix, "changed": changed[:20]})
             finally:
                 srv.close()
+                other.close()
                 shutil.rmtree(scratch, ignore_errors=True)
             chk.traces_validated += 1
 
